@@ -8,21 +8,9 @@ def optS : Option Nat → String
   | some n => toString n
   | none => "-"
 
-/-- spec-side mask: bit i ⇔ `bs[i]` -/
-def boolMask : List Bool → Nat
-  | [] => 0
-  | b :: bs => (if b then 1 else 0) + 2 * boolMask bs
-
 def classStr (c : CharClass) : String :=
   "/".intercalate ([c.width, c.newlines, c.carriageReturns, c.colons, c.hyphens, c.spaces,
     c.quotesDouble, c.quotesSingle, c.backslashes, c.hash].map hexOfNat)
-
-/-- the classification the property demands for `width` bytes at `offset` -/
-def classSpec (hasCr : Bool) (buf : List Byte) (offset width : Nat) : CharClass :=
-  let m (c : Byte) := boolMask (classMask c buf offset width)
-  { newlines := m 0x0a#8, carriageReturns := if hasCr then m 0x0d#8 else 0, colons := m 0x3a#8,
-    hyphens := m 0x2d#8, spaces := m 0x20#8, quotesDouble := m 0x22#8, quotesSingle := m 0x27#8,
-    backslashes := m 0x5c#8, hash := m 0x23#8, width := width }
 
 def utf8Chars (bs : List (BitVec 8)) : List Char :=
   match String.fromUTF8? (ByteArray.mk (bs.map fun b => UInt8.ofNat b.toNat).toArray) with
